@@ -216,7 +216,7 @@ theorem runBase_no_escape (F : Facts10) (hg : total F.genContexts = true) (hi : 
 
 theorem PFam.idx_le (f : PFam) : f.idx ≤ 2 := by cases f <;> decide
 theorem PMethod.idx_le (m : PMethod) : m.idx ≤ 2 := by cases m <;> decide
-theorem PCtype.idx_le (c : PCtype) : c.idx ≤ 4 := by cases c <;> decide
+theorem PCtype.idx_le (c : PCtype) : c.idx ≤ 5 := by cases c <;> decide
 theorem PLen.idx_le (l : PLen) : l.idx ≤ 11 := by cases l <;> decide
 
 theorem PreKey.idx_lt (k : PreKey) : k.idx < PreKey.count := by
@@ -258,6 +258,48 @@ theorem env_good (F : Facts10) (h : envTableOk F = true) (k : EnvKey) : (F.env k
   simp only [envTableOk, Bool.and_eq_true, decide_eq_true_eq, List.all_eq_true] at h
   have hk : k.idx < F.envTable.length := by rw [h.1]; exact EnvKey.idx_lt k
   unfold Facts10.env
+  simp only [List.getD_eq_getElem?_getD, List.getElem?_eq_getElem hk, Option.getD_some]
+  exact h.2 _ (List.getElem_mem hk)
+
+/-! ### the multi-reference and url tables -/
+
+theorem HrefKey.idx_lt (k : HrefKey) : k.idx < HrefKey.count := by
+  rcases k with ⟨v, sh⟩
+  have h1 : sh.idx ≤ 7 := by cases sh <;> decide
+  simp only [HrefKey.idx, HrefKey.count]
+  cases v <;> simp <;> omega
+
+def hrefTableOk (F : Facts10) : Bool := decide (F.hrefTable.length = HrefKey.count) && F.hrefTable.all EnvDecision.good
+
+theorem href_good (F : Facts10) (h : hrefTableOk F = true) (k : HrefKey) : (F.href k).good = true := by
+  simp only [hrefTableOk, Bool.and_eq_true, decide_eq_true_eq, List.all_eq_true] at h
+  have hk : k.idx < F.hrefTable.length := by rw [h.1]; exact HrefKey.idx_lt k
+  unfold Facts10.href
+  simp only [List.getD_eq_getElem?_getD, List.getElem?_eq_getElem hk, Option.getD_some]
+  exact h.2 _ (List.getElem_mem hk)
+
+theorem UrlKey.idx_lt (k : UrlKey) : k.idx < UrlKey.count := by
+  rcases k with ⟨f, sc, pa, ho, hs⟩
+  have h0 := PFam.idx_le f
+  have h1 : sc.idx ≤ 3 := by cases sc <;> decide
+  have h2 : pa.idx ≤ 2 := by cases pa <;> decide
+  have h3 : ho.idx ≤ 3 := by cases ho <;> decide
+  simp only [UrlKey.idx, UrlKey.count]
+  cases hs <;> simp <;> omega
+
+/-- a row of the url table: served as usual, or refused with a Client-family fault (4xx outside SOAP) -/
+def urlRowOk (soap : Bool) : PreDecision → Bool
+  | .proceed => true
+  | .reject c s => isClient c && (soap || (decide (400 ≤ s) && decide (s < 500)))
+  | _ => false
+
+def urlTableOk (F : Facts10) : Bool :=
+  decide (F.urlTable.length = UrlKey.count) && F.urlTable.all (fun d => urlRowOk true d)
+
+theorem url_ok (F : Facts10) (h : urlTableOk F = true) (k : UrlKey) : urlRowOk true (F.url k) = true := by
+  simp only [urlTableOk, Bool.and_eq_true, decide_eq_true_eq, List.all_eq_true] at h
+  have hk : k.idx < F.urlTable.length := by rw [h.1]; exact UrlKey.idx_lt k
+  unfold Facts10.url
   simp only [List.getD_eq_getElem?_getD, List.getElem?_eq_getElem hk, Option.getD_some]
   exact h.2 _ (List.getElem_mem hk)
 
